@@ -9,7 +9,9 @@ import random
 
 DIRS = ["North", "East", "South", "West"]
 NAME_POOL = ["cluster", "hbm", "serial_link", "cva6", "peripherals", "dram", "spm", "io2", "l2_mem",
-             "acc", "dma0", "host", "ep_a", "zmem", "tile", "x1", "c2c", "uart"]
+             "acc", "dma0", "host", "ep_a", "zmem", "tile", "x1", "c2c", "uart",
+             # names that are substrings / numbered variants of one another
+             "ram", "sram", "mem", "io", "mem_0", "hbm1"]
 ROUTER_NAMES = ["router", "rt", "xbar", "r", "noc_r", "sw"]
 
 
@@ -103,7 +105,7 @@ def mk_ranges(rng, alloc, count, is_array):
             else:
                 r = {"start": base, "end": base + size, "size": size}
         if nranges > 1 and rng.random() < 0.5:
-            r["desc"] = rng.choice(["mem", "cfg", "lo", "hi", "win"]) + str(ri)
+            r["desc"] = rng.choice(["mem", "cfg", "lo", "hi", "win"]) + (str(ri) if rng.random() < 0.93 else "")
         out.append(r)
     if rng.random() < 0.3:
         rng.shuffle(out)
@@ -327,6 +329,32 @@ def mesh_parts(rng, algo, nettype, alloc, m, n, rname, sides=None, partial_local
             c = flip_conn(c)
         conns.append(c)
         del arr_style
+    used = set(e["name"] for e in eps)
+    spare = [x for x in NAME_POOL if x not in used]
+    # G5: one array split over two opposite sides by two connections (XY: different directions per element)
+    if use_dirs and "West" not in sides and "East" not in sides and rng.random() < 0.12 and spare:
+        ename = spare.pop()
+        ep = mk_endpoint(rng, nettype, alloc, ename, array=[2 * n], force_role=rng.choice(["sbr", "dual"]))
+        eps.append(ep)
+        conns.append({"src": ename, "dst": rname, "src_range": [[0, n - 1]], "dst_range": [[0, 0], [0, n - 1]], "dst_dir": "West"})
+        conns.append({"src": ename, "dst": rname, "src_range": [[n, 2 * n - 1]], "dst_range": [[m - 1, m - 1], [0, n - 1]], "dst_dir": "East"})
+    # G4: a second endpoint on the Eject port of the same routers (a port conflict floogen rejects)
+    if use_dirs and rng.random() < 0.04 and spare:
+        ename = spare.pop()
+        eps.append(mk_endpoint(rng, nettype, alloc, ename, array=[m, n], force_role="dual"))
+        conns.append({"src": ename, "dst": rname, "src_range": [[0, m - 1], [0, n - 1]],
+                      "dst_range": [[0, m - 1], [0, n - 1]], "dst_dir": "Eject"})
+    # G8: an express link between the two ends of a row (ID / SRC only), on the free West / East ports
+    if algo != "XY" and use_dirs and m >= 3 and "West" not in sides and "East" not in sides and rng.random() < 0.15:
+        y = rng.randrange(n)
+        conns.append({"src": rname, "src_idx": [0, y], "src_dir": "West", "dst": rname, "dst_idx": [m - 1, y], "dst_dir": "East"})
+    # G7: an endpoint moved away from the grid by its own xy_id_offset (XY only)
+    if algo == "XY" and rng.random() < 0.05 and "East" not in sides and spare:
+        ename = spare.pop()
+        ep = mk_endpoint(rng, nettype, alloc, ename, force_role=rng.choice(["sbr", "dual", "mgr"]))
+        ep["xy_id_offset"] = {"x": rng.randint(1, 5), "y": rng.choice([0, 0, 2])}
+        eps.append(ep)
+        conns.append({"src": ename, "dst": rname, "dst_idx": [m - 1, rng.randrange(n)], "dst_dir": "East"})
     return eps, conns, (6 if extra_port else 5)
 
 
@@ -485,7 +513,39 @@ def gen_ring(rng, algo, nettype):
     return finish(rng, cfg, eps, [{"name": r} for r in rts], conns, shuffle=False)
 
 
+def gen_manual_mesh(rng, algo, nettype):
+    """a router array without auto_connect: every neighbour link is an explicit router-router connection
+    with directions (occasionally only the source side names its direction)"""
+    aw = 48
+    cfg = base_cfg(rng, "manual", nettype, algo, aw)
+    alloc = AddrAlloc(rng, aw)
+    m, n = rng.randint(1, 3), rng.randint(1, 3)
+    if m * n == 1:
+        m = 2
+    rname = rng.choice(ROUTER_NAMES)
+    conns = []
+    one_sided = algo == "XY" and rng.random() < 0.3
+    for i in range(m):
+        for j in range(n):
+            if i + 1 < m:
+                c = {"src": rname, "src_idx": [i, j], "src_dir": "East", "dst": rname, "dst_idx": [i + 1, j], "dst_dir": "West"}
+                conns.append(c)
+            if j + 1 < n:
+                c = {"src": rname, "src_idx": [i, j], "src_dir": "North", "dst": rname, "dst_idx": [i, j + 1], "dst_dir": "South"}
+                conns.append(c)
+    if one_sided and conns:
+        conns[rng.randrange(len(conns))].pop("dst_dir")
+    nm = names(rng, 2)
+    loc = mk_endpoint(rng, nettype, alloc, nm[0], array=[m, n], force_role="dual")
+    conns.append({"src": nm[0], "dst": rname, "src_range": [[0, m - 1], [0, n - 1]],
+                  "dst_range": [[0, m - 1], [0, n - 1]], "dst_dir": "Eject"})
+    if rng.random() < 0.4:
+        rng.shuffle(conns)
+    return finish(rng, cfg, [loc], [{"name": rname, "array": [m, n], "degree": 5, "auto_connect": False}], conns, shuffle=False)
+
+
 FAMILIES = {
+    "manual": gen_manual_mesh,
     "ring": gen_ring,
     "p2p": gen_p2p,
     "split": gen_split,
@@ -526,6 +586,8 @@ def gen_case(rng, families=None, algos=None, nettypes=None):
                 fam = "p2p"
             elif 0.05 <= u < 0.17:
                 fam = "ring"
+            elif 0.17 <= u < 0.21:
+                fam = "manual"
             elif u < 0.05:
                 fam = "split"
         nettype = rng.choice(nettypes or ["axi", "narrow-wide"])
